@@ -1,6 +1,6 @@
 ENTRY = {
     "level": "proof",
-    "families": [fam("C43", 500, 20000)],
+    "families": [fam("C43", 500, 5000)],
     "gen_items": [],
     "rule": "family C43, 4 of 5 cases kind sql: one vector table vt(id BIGINT unique, g BIGINT in 0..3 or NULL, emb FixedSizeList<Float32,d>, optional second vector "
             "column e2 of another width), d in 1..16 (1,2,3,8,9,16 favoured), 0..40 rows (one table in 14 with 1000..1300 rows in 2..4 batches = several "
